@@ -276,7 +276,8 @@ Qed.
 Theorem inverse_follows s o link upd n s1 ob :
   get_obj s o = Some ob ->
   ((exists r ip, get_params s ob = Some (VTen r ip)) \/ (link = false /\ exists f, get_params s ob = Some (VFun f))) ->
-  inverse1 s o link upd = Ok n s1 -> follows s1 o n.
+  inverse1 s o link upd = Ok n s1 ->
+  follows s1 o n /\ get_obj s1 o = Some ob /\ get_params s1 ob = get_params s ob.
 Proof.
   destruct (cfg_all_fields _ Hcf) as (_ & _ & _ & _ & _ & _ & _ & _ & _ & _ & Hfl & Hil & _).
   intros Ho Hpk H. unfold TransformState.inverse1, with_obj in H. fold (get_obj s o) in H. rewrite Ho in H.
@@ -314,13 +315,15 @@ Proof.
       + split; [apply slots_set_inv|]. split; [apply inv_set_inv | destruct ob2; reflexivity].
     - split; [apply slots_set_inv|]. split; [apply inv_set_inv | destruct ob2; reflexivity]. }
   destruct Hsl as ((Ha & Hd & Hb & Hm & Hg & Hkk) & Hv & Hcd).
-  exists ob, obn.
   assert (Egp : get_params (set_obj s2 n0 obn) obn = get_params s2 ob2).
   { unfold TransformState.get_params, get_pd. cbn. rewrite Ha, Hd, Hb, Hm. reflexivity. }
   assert (Egpo : get_params (set_obj s2 n0 obn) ob = get_params s ob).
   { rewrite <- Epo. unfold TransformState.get_params, get_pd. reflexivity. }
+  assert (Hoo : get_obj (set_obj s2 n0 obn) o = Some ob) by (rewrite get_set_other'; auto).
+  split; [|split; [exact Hoo | exact Egpo]].
+  exists ob, obn.
   refine (conj _ (conj _ (conj _ (conj _ (conj Hi (conj Hv _)))))).
-  - rewrite get_set_other'; auto.
+  - exact Hoo.
   - apply (get_set_same' _ _ _ _ Hg2).
   - congruence.
   - congruence.
@@ -338,9 +341,100 @@ Theorem inverse_stays_inverse_general s o link upd n s1 ob es :
   inverse1 s o link upd = Ok n s1 ->
   exists p g sg, held (edits s1 es) o = Some (p, g, sg) /\ held (edits s1 es) n = Some (p, g, negb sg).
 Proof.
-  intros Ho Hp H. eapply follows_held. apply follows_after_edits. eapply inverse_follows; eauto.
+  intros Ho Hp H. eapply follows_held. apply follows_after_edits. eapply (proj1 (inverse_follows _ _ _ _ _ _ _ Ho Hp H)).
 Qed.
 
+
+(* ---------- inverse(link=True) on a transform that holds a Parameter succeeds ---------- *)
+Lemma link_set_total s n o obn ob r :
+  get_obj s n = Some obn -> get_obj s o = Some ob -> n <> o ->
+  o_kind P G C obn = o_kind P G C ob -> o_kind P G C ob <> KSeq ->
+  get_params s ob = Some (VTen r true) -> get_pd P G C s (o_pd P G C obn) = Some (Some r) ->
+  exists s2, link_set P G C cf s n o = Ok tt s2.
+Proof.
+  destruct (cfg_all_fields _ Hcf) as (_ & _ & _ & _ & _ & _ & _ & _ & _ & _ & _ & _ & _ & _ & _ & _ & _ & _ & Hun).
+  intros Hn Ho Hne Hk Hks Hp Hpd. unfold link_set, with_obj. fold (get_obj s n) (get_obj s o). rewrite Hn, Ho.
+  destruct (Nat.eqb n o) eqn:En; [apply Nat.eqb_eq in En; contradiction|].
+  rewrite Hk. assert (Hke : kind_eqb (o_kind P G C ob) (o_kind P G C ob) = true) by (destruct (o_kind P G C ob); reflexivity).
+  rewrite Hke. cbn [negb].
+  unfold unshare_params. rewrite Hpd, Hun. cbn [new_pd].
+  set (d := next_pd P G C s).
+  set (s' := mkSt P G C (tens P G C s) (fun d' => if Nat.eqb d' d then None else pds P G C s d') (S d) (objs P G C s)).
+  set (su := set_obj s' n (set_pdid P G C obn d)).
+  assert (Hgu : get_obj su n = Some (set_pdid P G C obn d)) by (apply (get_set_same' s' n obn _ Hn)).
+  assert (Hlt : o_pd P G C ob <> d).
+  { unfold TransformState.get_obj in Ho. apply nth_error_In in Ho. pose proof (next_pd_fresh s ob Ho). subst d. lia. }
+  assert (Hpu : forall sx, pds P G C sx = pds P G C su -> get_params sx ob = Some (VTen r true)).
+  { intros sx E. unfold TransformState.get_params, get_pd in *. rewrite E. cbn.
+    destruct (Nat.eqb (o_pd P G C ob) d) eqn:E2; [apply Nat.eqb_eq in E2; contradiction | exact Hp]. }
+  assert (R : exists s2, bind P G C (set_params P G C su n (SetLink o)) (fun _ s1 =>
+        with_obj P G C s1 n (fun ob1 =>
+          match o_p P G C ob1 with
+          | Some _ => Ok tt s1
+          | None =>
+            match get_params s1 ob with
+            | None => Er AttrErr s1
+            | Some VNone => Er OtherErr s1
+            | Some _ =>
+                bind P G C (with_obj P G C s1 o (fun ob'' => data_ref P G C s1 ob'')) (fun r s2 =>
+                  Ok tt (set_obj s2 n (set_p P G C ob1 (Some r))))
+            end
+          end)) = Ok tt s2).
+  { unfold bind at 1. unfold set_params, with_obj. fold (get_obj su n). rewrite Hgu.
+    assert (Epd : get_pd P G C su (o_pd P G C (set_pdid P G C obn d)) = None).
+    { unfold get_pd, su. cbn. destruct obn; cbn. rewrite Nat.eqb_refl. reflexivity. }
+    rewrite Epd.
+    set (obn1 := set_slots P G C (set_pdid P G C obn d) None None (Some (Some (MLink o)))).
+    set (s1 := set_obj su n obn1).
+    assert (Hg1 : get_obj s1 n = Some obn1) by (apply (get_set_same' _ _ _ _ Hgu)).
+    assert (Ho1 : get_obj s1 o = Some ob) by (unfold s1, su; rewrite !get_set_other'; auto).
+    fold (get_obj s1 n). rewrite Hg1.
+    destruct (o_p P G C obn1); [eexists; reflexivity|].
+    rewrite (Hpu s1 eq_refl). unfold bind, with_obj. fold (get_obj s1 o). rewrite Ho1.
+    unfold data_ref. rewrite (Hpu s1 eq_refl). eexists; reflexivity. }
+  destruct (o_kind P G C ob); try congruence; exact R.
+Qed.
+
+Theorem inverse_link_parameter_total s o upd ob r :
+  get_obj s o = Some ob -> invertible (o_kind P G C ob) = true ->
+  get_params s ob = Some (VTen r true) -> get_pd P G C s (o_pd P G C ob) = Some (Some r) ->
+  exists n s1, inverse1 s o true upd = Ok n s1.
+Proof.
+  destruct (cfg_all_fields _ Hcf) as (_ & _ & _ & _ & _ & _ & _ & _ & _ & _ & Hfl & Hil & _).
+  intros Ho Hi Hp Hpd. unfold TransformState.inverse1, with_obj. fold (get_obj s o). rewrite Ho, Hi. cbn [negb push_obj].
+  rewrite Hil. cbn [andb].
+  set (sp := mkSt P G C (tens P G C s) (pds P G C s) (npd P G C s) (objs P G C s ++ [ob])).
+  set (n0 := length (objs P G C s)).
+  assert (Hlen : n0 <> o).
+  { intro E. unfold TransformState.get_obj in Ho. rewrite <- E in Ho.
+    assert (nth_error (objs P G C s) n0 = None) by (apply nth_error_None; unfold n0; lia). congruence. }
+  assert (Hgn : get_obj sp n0 = Some ob) by (unfold TransformState.get_obj, sp, n0; cbn; apply nth_error_app_new).
+  assert (Hgo : get_obj sp o = Some ob) by (unfold TransformState.get_obj, sp; cbn; apply nth_error_app_old; exact Ho).
+  assert (Hks : o_kind P G C ob <> KSeq) by (destruct (o_kind P G C ob); cbn in Hi; congruence).
+  destruct (link_set_total sp n0 o ob ob r Hgn Hgo Hlen eq_refl Hks Hp Hpd) as (s2 & El).
+  rewrite El.
+  assert (Hex : exists ob2, get_obj s2 n0 = Some ob2).
+  { destruct (link_set_effect sp n0 o ob ob r true s2 Hgn Hgo Hlen Hp El) as (ob2 & A & _). eauto. }
+  destruct Hex as (ob2 & Hg2). unfold with_obj. fold (get_obj s2 n0). rewrite Hg2. eexists _, _. reflexivity.
+Qed.
+
+Theorem inverse_link_parameter s o upd ob r :
+  get_obj s o = Some ob -> invertible (o_kind P G C ob) = true ->
+  get_params s ob = Some (VTen r true) -> get_pd P G C s (o_pd P G C ob) = Some (Some r) ->
+  exists n s1,
+    inverse1 s o true upd = Ok n s1 /\
+    get_obj s1 o = Some ob /\ get_params s1 ob = Some (VTen r true) /\
+    forall es : list (nat * P),
+      exists p g sg, held (edits s1 es) o = Some (p, g, sg) /\ held (edits s1 es) n = Some (p, g, negb sg).
+Proof.
+  intros Ho Hi Hp Hpd. destruct (inverse_link_parameter_total s o upd ob r Ho Hi Hp Hpd) as (n & s1 & H).
+  exists n, s1. split; auto.
+  assert (Hpk : (exists r ip, get_params s ob = Some (VTen r ip)) \/ (true = false /\ exists f, get_params s ob = Some (VFun f)))
+    by (left; eauto).
+  destruct (inverse_follows _ _ _ _ _ _ _ Ho Hpk H) as (Hf & Hoo & Egp).
+  split; auto. split; [congruence|].
+  intro es. eapply follows_held. apply follows_after_edits. exact Hf.
+Qed.
 
 (* inverse(update_buffers=True): the buffered displacement of the inverse is computed from the buffered
    velocity field with the NEGATED exponential (so the inverse can be used without update()) *)
